@@ -14,9 +14,9 @@ META = {
                         "any ring position, 0..depth messages already held (so the queue can be full while claims are in flight), symbolic payloads, one spurious "
                         "weak-CAS failure per handler",
                "thorough": "additionally: receiver as the high-priority handler; and the IR step machines (vt/ir2c.py, one shared "
-                           "access per step, symbolic schedule) for 2 senders + receiver at depth 1 under the interrupt discipline, and for 1 sender + receiver at depth 1 under FREE preemption (40 min, 6 GB)"},
+                           "access per step, symbolic schedule) for 1 sender + receiver at depth 1 under FREE preemption (40 min, 6 GB)"},
     "outside": ["FREE preemption with two or more senders (threads on a multiprocessor): the step-machine query for 2 senders + receiver at depth 1 exceeds 10 GB, 2 senders alone at depth 2 gave no verdict in 50 min - neither is registered; the interrupt "
-                "discipline is decided both at source level and on the IR step machines (which found the uchar defect at 2 senders, depth 1, in 38 min before the fix)", "more than 3 senders, depth > 3, more than one message per sender",
+                "discipline is decided at source level; its step-machine query for 2 senders + receiver needs more than 10 GB once the schedule loop is fully unwound and is not registered either", "more than 3 senders, depth > 3, more than one message per sender",
                 "releases out of receive order (the API requires in-order release)"],
     "assumptions": ["shim <stdatomic.h>: sequentially consistent atomics on one core, an interrupt may be taken immediately before each atomic operation; plain accesses "
                     "between two atomics of the same context commute with the handlers (which touch the queue only through atomics and their own claimed buffer)",
@@ -52,6 +52,5 @@ def queries(tier, kf):
     if tier == "thorough":
         qs.append(irq("c04-irq-recv-high-nest2", 3, 2, 2, extra={"RECV_IS_IRQ": None}, timeout=3600))
         qs.append(gens.selftest_query("c04-ir2c-selftest"))
-        qs.append(q("c04-machine-irq-2s-d1", 1, 2, 1, 1, extra={"DEPTH": 1}, backend="minisat", timeout=7200))
         qs.append(q("c04-machine-free-1s-1r-d1", 0, 1, 1, 1, extra={"DEPTH": 1}, backend="minisat", timeout=9000))
     return qs
